@@ -19,7 +19,7 @@ RULE = (
     "bounds) compiled with construct-pipeline,pipeline-duplicate-buffers,unroll-pipeline (variant P additionally prefixed by "
     "pipeline-canonicalize-for; variant B followed by insert-sync-barrier,dispatch-regions and executed literally). 2-3 cores run the result on "
     "the simulated cluster under K seeded schedules (stalls biased to the first action after a barrier, burst 1/whole); environments: lb in "
-    "{0,1,3}, step in {1,2}, trip counts 0..6 including < #stages; in an eighth of the programs a temporary of the loop is read once more behind the loop. Oracles: multiset of (stage op, external tile, data read) equals the "
+    "{0,1,3}, step in {1,2}, trip counts 0..6 including < #stages; in an eighth of the programs a temporary of the loop is read once more behind the loop, in a tenth the consumer stage reads its temporary through a view taken in front of the loop (must be left alone). Oracles: multiset of (stage op, external tile, data read) equals the "
     "sequential loop's; final contents of the function arguments equal; no external cell outside those the sequential loop touched; race "
     "monitor; barrier deadlock. non-trivial = the loop was pipelined and >= 1 iteration ran; distinct = hash of (program, environments)."
 )
